@@ -16,6 +16,6 @@ for p in "$ROOT"/sensitivity/benign/*.diff; do
   printf "%-14s %-4s %-45s tests=%s  %s\n" "$verdict" "$prop" "$name" "$tests" "$(echo "$out" | grep -m1 '^violation' | cut -c1-200)"
 done
 rm -f "$ROOT"/replays/*.json
-(cd "$ROOT/sim" && cargo build --offline --release -p c18 -p c15 -p c03 >/dev/null 2>&1 && cargo build --offline --profile relchk -p c03 >/dev/null 2>&1)
+(cd "$ROOT/sim" && cargo build --offline --release -p c18 -p c15 -p c03 >/dev/null 2>&1 && cargo build --offline --profile relchk -p c03 >/dev/null 2>&1 && cargo build --offline --profile devchk -p c03 >/dev/null 2>&1)
 echo "benign refactors raising an alarm: $bad"
 [ $bad = 0 ]
